@@ -173,6 +173,16 @@ func checkC06(c CaseC06, info *Info) *Failure {
 		if !json.Valid(b) {
 			return failf("invalid-json", "map %s safe=%v indent=%v -> %q", canon(c.Map), c.Safe, c.Indent, b)
 		}
+		// a result stays valid while other Maps are encoded afterwards
+		keep := append([]byte(nil), b...)
+		for _, other := range []mxj.Map{{"z": "second"}, {"zzzzzzzzzzzzzzzzzzzzzzzzzzzzzzzzzzzzzzzz": []interface{}{"y", 1.5, map[string]interface{}{"k": "<&>"}}}} {
+			other.Json(c.Safe)
+			other.Json(!c.Safe)
+			other.JsonIndent(c.Prefix, c.Ind, c.Safe)
+		}
+		if !bytes.Equal(b, keep) {
+			return failf("result-overwritten-by-later-call", "the bytes returned by Json changed when other Maps were encoded afterwards: %q -> %q", keep, b)
+		}
 		back, err := mxj.NewMapJson(b)
 		if err != nil {
 			return failf("decode-error", "%q: %v", b, err)
